@@ -4,32 +4,20 @@ Case grammar: see harness/run/pipe.go.
 -/
 import ShpanVerif.Util.Parse
 import ShpanVerif.Model.Pipe
+import ShpanVerif.Model.PipeTerminals
 import ShpanVerif.Spec.PipeSpec
 
 namespace ShpanVerif.Drive.PipeCommon
 open ShpanVerif.Util ShpanVerif.Model.Pipe
 
-/-- terminals built on `Consume` that hand back a value instead of the elements: what they report is a function of
-    what a collecting consumer is given (`FindFirstAndLast`, `FindLast`, `Count`; stream/shpan_stream.go 173-285) -/
-inductive Post where
-  | asIs | firstLast | last | count
-  deriving DecidableEq, Repr
-
+/-- `post`: the value terminals `ffl` / `flast` / `count` (FindFirstAndLast, FindLast, Count) are `Post` of
+    Model/PipeTerminals.lean: `Consume` with the collecting callback, then the terminal's own code (`Post.app`) -/
 structure Run where
   consumer : Consumer
   take : Option Int
   fault : Option (Nat × FaultKind)
   post : Post := .asIs
   deriving Repr
-
-/-- the answer of a value terminal from the outcome of the collecting consumer: a failed run hands back nothing -/
-def Post.app : Post → Outcome → Outcome
-  | .asIs, o => o
-  | _, .oof => .oof
-  | _, .err e _ => .err e []
-  | .firstLast, .ok d => .ok (match d.head?, d.getLast? with | some a, some b => [a, b] | _, _ => [])
-  | .last, .ok d => .ok (match d.getLast? with | some b => [b] | none => [])
-  | .count, .ok d => .ok [V.int d.length]
 
 def parseFn (s : String) : Option Fn :=
   match s.splitOn ":" with
